@@ -30,7 +30,7 @@ type Prog struct {
 	Whole   bool // dependencies loaded with syntax (thorough)
 	GoArch  string
 
-	Norm *normStats // what the normalisation did (nil if switched off)
+	Norm    *normStats    // what the normalisation did (nil if switched off)
 	Renames *renameResult // declarations renamed back to their pinned names
 	// RenamedAnchors: field anchors that no longer resolve by name and were recognised by type
 	RenamedAnchors []string
@@ -62,10 +62,10 @@ func Load(o LoadOpts) (*Prog, error) {
 		env = append(env, "GOARCH="+o.GoArch, "CGO_ENABLED=0")
 	}
 	cfg := &packages.Config{
-		Mode:    mode | packages.NeedModule,
-		Dir:     o.Root,
-		Env:     env,
-		Tests:   false,
+		Mode:  mode | packages.NeedModule,
+		Dir:   o.Root,
+		Env:   env,
+		Tests: false,
 	}
 	if o.Tags != "" {
 		cfg.BuildFlags = []string{"-tags=" + o.Tags}
@@ -282,6 +282,16 @@ func (p *Prog) Method(pkg, typ, name string) *types.Func {
 	if it, ok := n.Underlying().(*types.Interface); ok {
 		for i := 0; i < it.NumMethods(); i++ {
 			if m := it.Method(i); m.Name() == name {
+				return m
+			}
+		}
+	}
+	// an unexported helper folded into the exported method of the same name (setLinkCount -> SetLinkCount)
+	if !token.IsExported(name) && name != "" {
+		exp := strings.ToUpper(name[:1]) + name[1:]
+		for i := 0; i < n.NumMethods(); i++ {
+			if m := n.Method(i); m.Name() == exp {
+				p.RenamedAnchors = append(p.RenamedAnchors, pkg+"."+typ+"."+name+" -> "+exp+" (helper folded into the exported method)")
 				return m
 			}
 		}
